@@ -17,6 +17,7 @@ import asyncio
 import contextvars
 
 from . import sched as _sched
+from . import values as _values
 from .sched import SimAbort
 
 
@@ -63,6 +64,10 @@ class ExtractSub(ExtractMe):
 class StrRaises(Exception):
     def __str__(self):
         raise RuntimeError("str() raises")
+
+
+class SerBoom(Exception):
+    """What a failing field serializer raises."""
 
 
 class ExtractorBoom(Exception):
@@ -238,13 +243,27 @@ class Interp(object):
     # ----------------------------------------------------------- typed defs
     def define_types(self, types):
         e = self.eliot
+        rc = self.rc
+        S = dict(SERIALIZERS)
+        p_ser = rc.cfg.get("p_ser_raise", 0)
+        if p_ser:
+            fault = rc.dec.stream("fault")
+
+            def flaky(fn):
+                def ser(v):
+                    if fault.chance(p_ser, "ser_raise"):
+                        rc.count_fault("ser_raise")
+                        raise SerBoom("serializer failed")
+                    return fn(v)
+                return ser
+            S = {k: flaky(fn) for k, fn in S.items()}
         for name, t in sorted(types.items()):
             if t["kind"] == "action":
-                sf = [e.Field(k, SERIALIZERS[s], "") for k, s in t["start"]]
-                uf = [e.Field(k, SERIALIZERS[s], "") for k, s in t["succ"]]
+                sf = [e.Field(k, S[s], "") for k, s in t["start"]]
+                uf = [e.Field(k, S[s], "") for k, s in t["succ"]]
                 self.types[name] = e.ActionType(name, sf, uf, "")
             else:
-                mf = [e.Field(k, SERIALIZERS[s], "") for k, s in t["fields"]]
+                mf = [e.Field(k, S[s], "") for k, s in t["fields"]]
                 self.types[name] = e.MessageType(name, mf, "")
 
     # ------------------------------------------------------------ API calls
@@ -349,14 +368,15 @@ class Interp(object):
     def x_msg(self, op, env):
         e = self.eliot
         api = op["api"]
-        fields = dict(op["fields"])
+        faulty = self.rc.faulty_values
+        fields = _values.materialize(op["fields"]) if faulty else dict(op["fields"])
         nid = op["nid"]
         fields["nid"] = nid
         mtype = op["mtype"]
         parent = env.top()
         expected = dict(fields)
         actor = self.rc.actor_name()
-        if api == "typed":
+        if api == "typed" and not faulty:
             t = self.types[mtype]
             for key, f in t._serializer.fields.items():
                 if key in expected and key != "message_type":
@@ -399,11 +419,12 @@ class Interp(object):
         if node.remote and node.nid is None:
             return
         ser = node.ser_succ
-        for k2, v in op["fields"].items():
+        opf = _values.materialize(op["fields"]) if self.rc.faulty_values else op["fields"]
+        for k2, v in opf.items():
             if ser is not None and k2 in ser:
                 continue
             node.succ[k2] = v
-        flt = {k2: v for k2, v in op["fields"].items() if not (ser is not None and k2 in ser)}
+        flt = {k2: v for k2, v in opf.items() if not (ser is not None and k2 in ser)}
         self.api(("succ", node.nid), obj.add_success_fields, **flt)
 
     # ------------------------------------------------- re-entry, plain generators
@@ -531,7 +552,8 @@ class Interp(object):
         api = op["api"]
         nid = op["nid"]
         atype = op["atype"]
-        start = dict(op["start"])
+        faulty = rc.faulty_values
+        start = _values.materialize(op["start"]) if faulty else dict(op["start"])
         start["nid"] = nid
         parent = env.top()
         is_task = api in ("task", "typed_task")
@@ -540,6 +562,8 @@ class Interp(object):
         if api in ("typed", "typed_task"):
             t = self.types[atype]
             for key, f in t._serializers.start.fields.items():
+                if faulty:
+                    break
                 if key in expected_start and key not in ("action_type", "action_status"):
                     expected_start[key] = f.serialize(expected_start[key])
             ser_succ = {key: f for key, f in t._serializers.success.fields.items()
@@ -563,6 +587,8 @@ class Interp(object):
         node.obj = a
         # typed success fields declared by the type must be supplied on success
         typed_succ = op.get("tsucc") or {}
+        if faulty:
+            typed_succ = _values.materialize(typed_succ)
         style = op.get("style", "with")
         catch = op.get("catch", False)
         extra_finish = op.get("fin", 0)
@@ -677,7 +703,7 @@ class Interp(object):
     def _typed_succ(self, node, a, typed_succ):
         for k2, v in typed_succ.items():
             f = node.ser_succ.get(k2) if node.ser_succ else None
-            node.succ[k2] = f.serialize(v) if f is not None else v
+            node.succ[k2] = f.serialize(v) if (f is not None and not self.rc.faulty_values) else v
         self.api(("succ", node.nid), a.add_success_fields, **typed_succ)
 
     def _model_fail(self, node, ex, env=None):
@@ -700,18 +726,20 @@ class Interp(object):
         e = self.eliot
         rc = self.rc
         nid = op["nid"]
-        args = dict(op["start"])
+        args = _values.materialize(op["start"]) if rc.faulty_values else dict(op["start"])
         args["nid"] = nid
         include_result = op.get("include_result", True)
         include_args = op.get("include_args")
         names = list(args)
         result = op.get("result", 0)
+        if rc.faulty_values:
+            result = _values.materialize(result)
         catch = op.get("catch", False)
         interp = self
 
         def body_fn(**kw):
-            if kw != args:
-                rc.fail("log_call_args", "wrapped function got %r" % (kw,))
+            if set(kw) != set(args) or any(kw[k2] is not args[k2] for k2 in kw):
+                rc.fail("log_call_args", "wrapped function got other arguments than were passed")
                 raise Unwind()
             a = e.current_action()
             node.obj = a
@@ -755,8 +783,8 @@ class Interp(object):
             node.outcome = "succeeded"
             if include_result:
                 node.succ["result"] = result
-                if r != result:
-                    rc.fail("log_call_result", "log_call returned %r" % (r,))
+                if r is not result:
+                    rc.fail("log_call_result", "log_call returned a different object than the function")
                     raise Unwind()
             elif r is not holder:
                 rc.fail("log_call_result", "log_call(include_result=False) returned %r" % (r,))
@@ -847,6 +875,8 @@ class Interp(object):
             rc.task_ids.append(tid)
             nid = op["nid"]
             rfields = dict(op.get("start", {}))
+            if rc.faulty_values:
+                rfields = _values.materialize(rfields)
             rfields["nid"] = nid
             rnode = MAction(nid, op.get("atype", "eliot:remote_task"), dict(rfields), name, remote=True)
             self.model.attach(rnode, parent)
